@@ -951,3 +951,100 @@ Section Override.
     - apply flat_map_app.
   Qed.
 End Override.
+
+(* ---- the whole deck with every card replaced by its constructed card ---- *)
+Section CanonDeck.
+  Context {T : Type} (SC : Scalar T) (e : env (T:=T)).
+
+  (* whatever the card of cell j is (explicit or LIKE), it is parsed as the text
+     it stands for *)
+  Lemma cell_is_worker_of_denoted tbl j c d x rank lat :
+    lookup j tbl = Some c -> denotes tbl j d x ->
+    parse_one_cell SC (List.length tbl) e tbl rank lat c = worker SC e rank lat x.
+  Proof.
+    intros Hl Hd.
+    destruct (denotes_inv tbl j d x c Hd Hl) as [Hc|(mat & g & o & m & d' & x' & -> & Hs & Hd')].
+    - assert (Hx : denotes tbl j 0 c) by (constructor; assumption).
+      destruct (denotes_fun tbl j d x Hd _ _ Hx) as [_ ->].
+      apply explicit_cell. exact Hc.
+    - assert (Hx : denotes tbl j (S d') (apply_but x' o)) by (econstructor; eassumption).
+      destruct (denotes_fun tbl j d x Hd _ _ Hx) as [_ ->].
+      apply (like_in_parse_all SC e tbl rank lat mat g o m d' x' Hs Hd').
+  Qed.
+
+  (* [tblc] holds, for every cell of [tbl], the text of the card constructed for it *)
+  Definition canon_table (tbl tblc : table) : Prop :=
+    Forall2 (fun jc jc' => fst jc = fst jc' /\
+                           exists d x w, denotes tbl (fst jc) d x /\ canon_card SC e x = Ok w /\
+                                         snd jc' = card_text w) tbl tblc.
+
+  Lemma canon_cells_same tbl tblc : NoDup (map fst tbl) ->
+    forall todo todoc rank cells,
+    (forall j c, In (j, c) todo -> In (j, c) tbl) ->
+    Forall2 (fun jc jc' => fst jc = fst jc' /\
+                           exists d x w, denotes tbl (fst jc) d x /\ canon_card SC e x = Ok w /\
+                                         snd jc' = card_text w) todo todoc ->
+    List.length tblc = List.length tbl ->
+    parse_cells SC e tbl rank todo = Ok cells ->
+    parse_cells SC e tblc rank todoc = Ok cells.
+  Proof.
+    intros Hnd todo todoc rank cells Hin H. revert rank cells Hin.
+    induction H as [|[j c] [j' c'] r r' [Hk (d & x & w & Hd & Hc & Ht)] Hr IH];
+      intros rank cells Hin Hlen Hp; cbn [parse_cells] in *; [exact Hp|].
+    cbn [fst snd] in *. subst j' c'.
+    assert (Hl : lookup j tbl = Some c).
+    { apply lookup_in_nodup; [exact Hnd|apply Hin; left; reflexivity]. }
+    rewrite (cell_is_worker_of_denoted tbl j c d x rank (latopt e j) Hl Hd) in Hp.
+    destruct (worker SC e rank (latopt e j) x) as [cl|] eqn:Ew; [|discriminate].
+    cbn [bind] in Hp.
+    destruct (parse_cells SC e tbl (S rank) r) as [cs|] eqn:Er; [|discriminate].
+    cbn [bind] in Hp. inversion Hp; subst cells. clear Hp.
+    destruct (canon_card_parses SC e rank (latopt e j) x w cl Hc Ew) as [Hw _].
+    assert (Hex : is_explicit (card_text w)).
+    { pose proof (denotes_explicit tbl j d x Hd) as Hx.
+      unfold canon_card in Hc. destruct x as [[mx gx] ox]. cbn [wcard_of] in Hc.
+      destruct (groups SC e (tokenize ox)) as [gs|]; [|discriminate]. cbn [bind] in Hc.
+      destruct (canon_mat (words mx) gs) as [mw'|]; [|discriminate]. cbn [bind] in Hc.
+      destruct (canon_groups SC e gs) as [cg|]; [|discriminate]. cbn [bind] in Hc.
+      destruct (_ && _); [|discriminate]. inversion Hc; subst w.
+      unfold is_explicit, geom_of, card_text in *. cbn [fst snd] in *. exact Hx. }
+    rewrite (explicit_cell SC e tblc _ rank (latopt e j) (card_text w) Hex), Hw. cbn [bind].
+    rewrite (IH (S rank) cs); [reflexivity| |exact Hlen|exact Er].
+    intros j0 c0 Hi. apply Hin. right. exact Hi.
+  Qed.
+
+  Lemma forall2_length {A B} (R : A -> B -> Prop) l1 l2 : Forall2 R l1 l2 -> List.length l1 = List.length l2.
+  Proof. induction 1; cbn; [reflexivity|now f_equal]. Qed.
+
+  Theorem canon_deck tbl tblc cells :
+    NoDup (map fst tbl) -> canon_table tbl tblc ->
+    parse_all SC e tbl = Ok cells -> parse_all SC e tblc = Ok cells.
+  Proof.
+    intros Hnd Hc Hp. unfold parse_all in *.
+    apply (canon_cells_same tbl tblc Hnd tbl tblc 0 cells (fun j c H => H) Hc); [|exact Hp].
+    symmetry. exact (forall2_length _ _ _ Hc).
+  Qed.
+End CanonDeck.
+
+(* the three-card example deck and its constructed deck *)
+Lemma example_canon_table {T : Type} (SC : Scalar T) (v0 v1 : T) :
+  canon_table SC (xenv v0 v1) xtbl
+    [(1%Z, ("1 -1.0", " -1 ", "imp:n 0"));
+     (2%Z, ("2 -1.0", " -1 ", "imp:n 1"));
+     (3%Z, ("2 -2.5", " -1 ", "imp:n 1 *trcl 0"))] /\ NoDup (map fst xtbl).
+Proof.
+  assert (H1 : denotes xtbl 1 0 (" 1 -1.0", " -1 ", "imp:n=0")).
+  { apply den_explicit; vm_compute; reflexivity. }
+  assert (H2 : denotes xtbl 2 1 (apply_but (" 1 -1.0", " -1 ", "imp:n=0") " MAT=2 imp:n=1")).
+  { eapply den_like with (m := 1%Z) (mat := "") (g := " like 1 but");
+      [vm_compute; reflexivity|vm_compute; reflexivity|exact H1]. }
+  assert (H3 : denotes xtbl 3 2 (apply_but (apply_but (" 1 -1.0", " -1 ", "imp:n=0") " MAT=2 imp:n=1")
+                                           " rho = -2.5 *TRCL=( 0 )")).
+  { eapply den_like with (m := 2%Z) (mat := "") (g := " LIKE 2 BUT");
+      [vm_compute; reflexivity|vm_compute; reflexivity|exact H2]. }
+  split.
+  - unfold canon_table, xtbl.
+    repeat constructor; cbn [fst snd];
+      (eexists; eexists; eexists; split; [eassumption|split; [vm_compute; reflexivity|reflexivity]]).
+  - cbn. repeat constructor; cbn; intuition discriminate.
+Qed.
